@@ -1,7 +1,8 @@
-(* OptMono.v — first step towards "the translation validator is monotone in its fuel": its two literal collectors
-   (`lits` for skip-until, `flat_terms` for squashed choices) are. (Monotonicity of `ochk` itself is what the proofs of
-   the in-place passes need, to carry "the current body of every rule is a validated image of its original body"
-   through the table while different rules are validated at different depths; not done.) *)
+(* OptMono.v — the translation validator is monotone in its fuel: what it accepts with fuel f it accepts with any
+   larger fuel (`ochk_mono_le`, `ochk_grammar_mono`), and so are its two literal collectors (`lits` for skip-until,
+   `flat_terms` for squashed choices). This is what proofs of the in-place passes need, to carry "the current body
+   of every rule is a validated image of its original body" through the table while different rules are validated
+   at different depths; it also shows that the fuel the driver gives the validator is not a cliff. *)
 From Coq Require Import List NArith ZArith Bool Arith Lia.
 Import ListNotations.
 From PP Require Import Base Syntax Spec SpecSyn SpecEquiv CharClass Opt OptProof OptPass OptPassProof OptPassInline.
@@ -45,3 +46,87 @@ Proof.
 Qed.
 
 End M.
+
+(* ---------- the local iterators are monotone in their test ---------- *)
+Lemma all2_mono (P Q : expr -> expr -> bool) : (forall x y, P x y = true -> Q x y = true) -> forall xs ys,
+  (fix all2 (xs ys : list expr) : bool :=
+     match xs, ys with [], [] => true | x :: xs', y :: ys' => P x y && all2 xs' ys' | _, _ => false end) xs ys = true ->
+  (fix all2 (xs ys : list expr) : bool :=
+     match xs, ys with [], [] => true | x :: xs', y :: ys' => Q x y && all2 xs' ys' | _, _ => false end) xs ys = true.
+Proof.
+  intros PQ. induction xs as [|x xs IH]; intros [|y ys] H; try discriminate; [reflexivity|].
+  apply andb_prop in H. destruct H as [H1 H2]. rewrite (PQ _ _ H1). exact (IH ys H2).
+Qed.
+Lemma alln_mono (P Q : expr -> expr -> bool) : (forall x y, P x y = true -> Q x y = true) -> forall x ys,
+  (fix alln (x : expr) (ys : list expr) : bool :=
+     match ys with [] => true | y :: ys' => P x y && alln x ys' end) x ys = true ->
+  (fix alln (x : expr) (ys : list expr) : bool :=
+     match ys with [] => true | y :: ys' => Q x y && alln x ys' end) x ys = true.
+Proof.
+  intros PQ x. induction ys as [|y ys IH]; intros H; [reflexivity|].
+  apply andb_prop in H. destruct H as [H1 H2]. rewrite (PQ _ _ H1). exact (IH H2).
+Qed.
+Lemma allopt_mono (P Q : expr -> expr -> bool) : (forall x y, P x y = true -> Q x y = true) -> forall x ys,
+  (fix allopt (x : expr) (ys : list expr) : bool :=
+     match ys with [] => true | EOpt y :: ys' => P x y && allopt x ys' | _ => false end) x ys = true ->
+  (fix allopt (x : expr) (ys : list expr) : bool :=
+     match ys with [] => true | EOpt y :: ys' => Q x y && allopt x ys' | _ => false end) x ys = true.
+Proof.
+  intros PQ x. induction ys as [|y ys IH]; intros H; [reflexivity|].
+  destruct y; try discriminate.
+  apply andb_prop in H. destruct H as [H1 H2]. rewrite (PQ _ _ H1). exact (IH H2).
+Qed.
+
+Section Mono.
+Variables g g' : grammar.
+
+Ltac crack :=
+  repeat match goal with
+  | H : _ && _ = true |- _ => apply andb_prop in H; destruct H
+  | H : _ || _ = true |- _ => apply orb_prop in H; destruct H
+  | H : match ?t with _ => _ end = true |- _ => destruct t eqn:?; try discriminate
+  end.
+
+Lemma ochk_mono : forall f toff e e', ochk g g' f toff e e' = true -> ochk g g' (S f) toff e e' = true.
+Proof.
+  induction f as [|f IH]; intros toff e e' H; [discriminate|].
+  pose (F := S f).
+  assert (IHt : forall x y, ochk g g' f toff x y = true -> ochk g g' F toff x y = true) by (intros; apply IH; assumption).
+  assert (Hl : forall x ws, lits g f x = Some ws -> lits g F x = Some ws) by (intros; apply lits_mono; assumption).
+  assert (Hf : forall x ts, flat_terms g f x = Some ts -> flat_terms g F x = Some ts) by (intros; apply flat_terms_mono; assumption).
+  change (ochk g g' (S F) toff e e' = true). clearbody F. clear IH.
+  destruct e; destruct e'; cbn [ochk] in H |- *; try discriminate; try exact H;
+    crack;
+    repeat match goal with
+       | K : ochk g g' f toff _ _ = true |- _ => apply IHt in K
+       | K : lits g f _ = Some _ |- _ => apply Hl in K
+       | K : flat_terms g f _ = Some _ |- _ => apply Hf in K
+       end;
+    repeat match goal with
+       | K : _ = true |- _ =>
+           first [ apply (all2_mono (ochk g g' f toff) (ochk g g' F toff) IHt) in K
+                 | apply (alln_mono (ochk g g' f toff) (ochk g g' F toff) IHt) in K
+                 | apply (allopt_mono (ochk g g' f toff) (ochk g g' F toff) IHt) in K ]
+       end;
+    repeat match goal with K : ?l = ?r |- _ => rewrite K; clear K end;
+    cbn [andb orb]; rewrite ?orb_true_r; try reflexivity.
+Qed.
+
+Lemma ochk_mono_le f1 f2 toff e e' : f1 <= f2 -> ochk g g' f1 toff e e' = true -> ochk g g' f2 toff e e' = true.
+Proof. intros L H. induction L as [|m _ IH]; [exact H|]. apply ochk_mono. exact IH. Qed.
+
+Lemma ochk_rule_mono f r' : ochk_rule g g' f r' = true -> ochk_rule g g' (S f) r' = true.
+Proof.
+  unfold ochk_rule. destruct (lookup g (r_name r')) as [r|]; [|discriminate]. intros H.
+  apply andb_prop in H. destruct H as [H1 H2]. rewrite H1. apply ochk_mono. exact H2.
+Qed.
+
+(* the verdict on a whole table does not depend on giving the validator "enough" fuel exactly: more never hurts *)
+Theorem ochk_grammar_mono f : ochk_grammar g g' f = true -> ochk_grammar g g' (S f) = true.
+Proof.
+  unfold ochk_grammar. intros H. apply andb_prop in H. destruct H as [H H3]. apply andb_prop in H. destruct H as [H1 H2].
+  rewrite H2, H3, !andb_true_r. rewrite forallb_forall in *. intros r' I. specialize (H1 r' I).
+  apply orb_prop in H1. destruct H1 as [H1|H1]; [rewrite H1; reflexivity|].
+  rewrite (ochk_rule_mono f r' H1). apply orb_true_r.
+Qed.
+End Mono.
